@@ -2,12 +2,13 @@
 (* C08, model -> code: layouts of the argument of a `description` statement in a
    minimal module, each with the value RFC 6020 6.1.3 gives it (YangString).
    Families (one per initial state, so that TLC's workers share the work):
-     1..NPre   two-line double-quoted strings: prefix kind p x contents x contents x
-               continuation indent x trailing blanks x LF/CRLF
+     1..17     two-line double-quoted strings: prefix kind p (13-17: characters of 2, 3, 4
+               bytes before the quote on its line) x contents x contents x continuation
+               indent x trailing blanks x LF/CRLF
      20        three-line strings around empty and blank-only lines
      21        unquoted and single-quoted strings
-     22        concatenations: forms x contents x trivia around +
-     100       NRand layouts drawn at random from all the menus (TLC -seed)
+     22, 23    concatenations of two / three pieces: forms x contents x trivia around +
+     100, 101  NRand / 2 layouts each, drawn at random from all the menus (TLC -seed)
    Size selects the menus: "quick" or "thorough".                                 *)
 EXTENDS YangString, Json, SequencesExt, FiniteSets, TLC
 CONSTANTS Size, NRand
@@ -30,8 +31,18 @@ Pres == << C("  ") \o Kw \o <<SP>>,                         \* quote in column 1
                C("  ") \o Kw \o C(" /* c */ "),                 \* comment between keyword and string
                C("  ") \o Kw \o <<LF>> \o C("// c") \o <<LF>> \o C("     "),   \* line comment, then column 6
                C("      ") \o Kw \o <<LF, SP, TAB>>,            \* blank + tab: column 10
-               C("  ") \o Kw \o <<LF>> \o C("          ") >>    \* column 11
-NPre == IF Thorough THEN Len(Pres) ELSE 6
+               C("  ") \o Kw \o <<LF>> \o C("          "),     \* column 11
+               \* characters of 2, 3 and 4 bytes before the quote on its line: each takes one column
+               C("  organization \"Zo") \o <<235>> \o C("\"; ") \o Kw \o <<SP>>,          \* 13: a preceding statement on the line
+               C("  /* ") \o <<181>> \o C("s ") \o <<8364, SP, 128512>> \o C(" */ ") \o Kw \o <<SP>>,   \* 14: a comment before the keyword
+               C("  ") \o Kw \o C(" /* ") \o <<181, 8364>> \o C(" */ "),                     \* 15: a comment before the string
+               C("  m:e Zo") \o <<235, 8364>> \o C("; ") \o Kw \o <<SP>>,                    \* 16: an unquoted non-ASCII argument before
+               C("  ") \o Kw \o <<LF, TAB>> \o C("/* ") \o <<128512, 128512>> \o C(" */ ") >>  \* 17: tab and 4-byte characters, own line
+\* the statement under test is child 3 of the module, plus one for every statement the prefix puts before it
+RECURSIVE CountCh(_, _, _)
+CountCh(s, c, i) == IF i > Len(s) THEN 0 ELSE (IF s[i] = c THEN 1 ELSE 0) + CountCh(s, c, i + 1)
+PathOf(pre) == <<3 + CountCh(pre, SEMI, 1)>>
+PreFams == (1..Len(Pres)) \ (IF Thorough THEN {} ELSE {2, 7, 11, 12})
 \* contents of one line of a double-quoted string (source form)
 LineMenuCore == << << >>, C("a"), C("b c"), <<BSL, DQ>>, <<BSL, BSL>>, C("//c"), <<233>> >>
 LineMenuMore == << C("x") \o <<BSL, 110>> \o C("y"), <<BSL, 116>> \o C("z"), C("/*c*/"), <<SQ>>, C("+"), C(";{}"), C("a "), C(" a"), <<TAB>> \o C("a"),
@@ -80,7 +91,7 @@ Sane(pieces) == \A k \in 1..Len(pieces) : pieces[k].q = "d" =>
   /\ PlainIsVerbatim(pieces[k].src, 7) /\ SingleLineLayoutFree(pieces[k].src) /\ NoBreakNoStrip(pieces[k].src, 7)
 Vec(f, pre, pieces, joins, tail) ==
   LET r == RenderArg(HeadTxt \o pre, pieces, joins) IN
-  [fam |-> f, text |-> r.text \o tail \o FootTxt, path |-> <<3>>, expect |-> r.value, judged |-> r.judged, feat |-> Feat(pieces),
+  [fam |-> f, text |-> r.text \o tail \o FootTxt, path |-> PathOf(pre), expect |-> r.value, judged |-> r.judged, feat |-> Feat(pieces),
    sane |-> Assert(Sane(pieces), <<"spec fault: YangString contradicts itself on", pieces>>)]
 
 D(src) == [q |-> "d", src |-> src]
@@ -93,24 +104,30 @@ TwoLines(p) == LET pre == Pres[p]  q == QC(pre) IN
   {Vec(p, pre, <<D(DqSrc(<<LineMenu[a], LineMenu[b]>>, <<E0, Indents(q)[i]>>, <<Trails[t], E0>>, Eols[e]))>>, << >>, TailMenu[1 + ((a + b + i) % Len(TailMenu))])
      : a \in 1..Len(LineMenu), b \in 1..Len(LineMenu), i \in 1..NInd, t \in 1..NTrail, e \in 1..2}
 \* family 20: three lines, empty and blank-only lines
-ThreeLines == UNION {LET pre == Pres[p]  q == QC(pre)  I == Indents(q) IN
+ThreeLines(u_) == UNION {LET pre == Pres[p]  q == QC(pre)  I == Indents(q) IN
   {Vec(20, pre, <<D(DqSrc(<<l1, l2, l3>>, <<E0, I[i2], I[i3]>>, <<Trails[t], Trails[t], E0>>, Eols[e]))>>, << >>, TailMenu[1])
      : l1 \in {<< >>, C("a")}, l2 \in {<< >>, C("b")}, l3 \in {<< >>, C("c")}, i2 \in {1, 3, 5, 7}, i3 \in {1, 4, 6, 9}, t \in 1..2, e \in 1..2}
-  : p \in (IF Thorough THEN {1, 2, 3, 5, 6, 11} ELSE {1, 5})}
+  : p \in (IF Thorough THEN {1, 2, 3, 5, 6, 11, 13, 17} ELSE {1, 5, 13})}
 \* family 21: unquoted and single-quoted
 UMenu == << C("a"), C("a+b"), C("+a"), C("a/b"), C("a:b-c.d_e"), <<233>>, C("a") \o <<BSL>> \o C("n"), C("x*y"), C("1.5"), C("a'b") >>
 SMenu == << << >>, C("a b"), C("a") \o <<LF>> \o C("   b"), C("a  ") \o <<LF>> \o C("b"), <<BSL>> \o C("n") \o <<BSL, BSL>>, <<DQ>>, C("//c /*d*/"), <<TAB>> \o C("a") \o <<CR, LF, TAB>> \o C("b"),
             <<LF>>, C("+"), <<8364, 128512>> >>
-Plain == {Vec(21, Pres[p], <<U(UMenu[k])>>, << >>, TailMenu[t]) : p \in {1, 4, 9}, k \in 1..(Len(UMenu) - 1), t \in 1..Len(TailMenu)}
+Plain(u_) == {Vec(21, Pres[p], <<U(UMenu[k])>>, << >>, TailMenu[t]) : p \in {1, 4, 9}, k \in 1..(Len(UMenu) - 1), t \in 1..Len(TailMenu)}
          \cup {Vec(21, Pres[p], <<S(SMenu[k])>>, << >>, TailMenu[t]) : p \in {1, 3, 5, 9}, k \in 1..Len(SMenu), t \in {1, 2}}
 \* family 22: concatenations
 PieceMenu(q) == << D(C("a")), S(C("b")), D(<< >>), S(<< >>), D(C("x") \o <<LF>> \o Spaces(q) \o C("y")), D(C("x  ") \o <<LF>> \o C(" y")), S(C("s") \o <<LF>> \o C("  t")),
-                   D(<<BSL, DQ>> \o C("q")), D(C("u") \o <<LF, TAB>> \o C("v")) >>
-Concat == UNION {LET pre == Pres[p]  M == PieceMenu(QC(pre)) IN
+                   D(<<BSL, DQ>> \o C("q")), D(C("u") \o <<LF, TAB>> \o C("v")),
+                   \* 10: indented far beyond the first quote column (what is left depends on where the piece ends up; used twice in
+                   \*     one argument the same source text stands for two different values), 11/12: multi-byte characters before a later quote
+                   D(C("x") \o <<LF>> \o Spaces(q + 14) \o C("y")), S(<<196, 214, 220>>), S(<<8364, 128512>>) >>
+ConcatPres == IF Thorough THEN {1, 3, 5, 7, 13} ELSE {1}
+Concat2(u_) == UNION {LET pre == Pres[p]  M == PieceMenu(QC(pre)) IN
     {Vec(22, pre, <<M[a], M[b]>>, <<Joins[j]>>, TailMenu[1 + ((a + b) % 2)]) : a \in 1..Len(M), b \in 1..Len(M), j \in 1..Len(Joins)}
-    \cup {Vec(22, pre, <<M[a], M[b], M[c]>>, <<Joins[j], Joins[1 + ((j + a) % Len(Joins))]>>, TailMenu[1])
-           : a \in {1, 2, 5}, b \in 1..Len(M), c \in {1, 2, 6, 9}, j \in 1..Len(Joins)}
-  : p \in (IF Thorough THEN {1, 3, 5, 7} ELSE {1})}
+  : p \in ConcatPres}
+Concat3(u_) == UNION {LET pre == Pres[p]  M == PieceMenu(QC(pre)) IN
+    {Vec(23, pre, <<M[a], M[b], M[c]>>, <<Joins[j], Joins[1 + ((j + a) % Len(Joins))]>>, TailMenu[1])
+           : a \in {1, 2, 5, 11}, b \in 1..Len(M), c \in {1, 2, 6, 9, 10}, j \in 1..Len(Joins)}
+  : p \in ConcatPres}
 
 \* family 100: everything at random
 RE(seq) == seq[RandomElement(1..Len(seq))]
@@ -121,11 +138,12 @@ RandVec(u_) == LET pre == RE(Pres)  n == RandomElement(1..3)
                    \* the quote column of later pieces is whatever the rendering makes it; indents are drawn around the first one
                    q == QC(pre) IN
   Vec(100, pre, [k \in 1..n |-> RandPiece(IF k = 1 THEN q ELSE RandomElement(1..24))], [k \in 1..(n - 1) |-> RE(Joins)], RE(TailMenu))
-Random == {RandVec(k) : k \in 1..NRand}
+Random(u_) == {RandVec(k) : k \in 1..(NRand \div 2)}
 
-Cases == IF fam <= NPre THEN TwoLines(fam)
-         ELSE IF fam = 20 THEN ThreeLines ELSE IF fam = 21 THEN Plain ELSE IF fam = 22 THEN Concat ELSE Random
-GInit == fam \in (1..NPre) \cup {20, 21, 22, 100} /\ done = FALSE
+\* (the big sets take a dummy parameter: TLC evaluates every parameterless definition once at start-up, single-threaded)
+Cases == IF fam <= Len(Pres) THEN TwoLines(fam)
+         ELSE IF fam = 20 THEN ThreeLines(0) ELSE IF fam = 21 THEN Plain(0) ELSE IF fam = 22 THEN Concat2(0) ELSE IF fam = 23 THEN Concat3(0) ELSE Random(0)
+GInit == fam \in PreFams \cup {20, 21, 22, 23, 100, 101} /\ done = FALSE
 GNext == /\ ~done /\ done' = TRUE /\ UNCHANGED fam
          /\ ndJsonSerialize("vec_" \o ToString(fam) \o ".ndjson", SetToSeq(Cases))
 =============================================================================
